@@ -1191,3 +1191,64 @@ def run_law_history(case, rec):
 
 
 SUBS.append(Sub("law_parameters", run_law_history, gen=law_histories, quick=80, thorough=600, shards=6))
+
+
+# ------------------------------------------------------------------------------------------
+# (added by the lead, round 8) a phase-field simulation loaded until it is damaged (history committed by Save_Iter), then given ANOTHER
+# mesh - the same mesh built again (same numbers of elements and points), a moved copy, or a mesh of another size - and loaded
+# lightly: the damage is the one of a new simulation on that mesh (none), for every damage solver
+
+
+def enum_pf_replace(tier):
+    sq = [[0.0, 0.0], [1.0, 0.0], [1.0, 1.0], [0.0, 1.0]]
+    for et in ("TRI3", "QUAD4"):
+        r = dict(verts=sq, h=0.34, elemType=et, organised=True, extrude=None, layers=0, A=None, b=None, perm=None, orphans=0)
+        for solver in ("History", "HistoryDamage", "BoundConstrain"):
+            for how in ("same_rebuilt", "copy_moved", "other_size"):
+                yield dict(recipe=r, solver=solver, how=how)
+
+
+def check_pf_replace(case, rec):
+    sig = dict(elemType=case["recipe"]["elemType"], solver=case["solver"], how=case["how"])
+    rec.label("pf_replace:" + case["how"], "solver:" + case["solver"])
+    el = Models.Elastic.Isotropic(2, E=210.0, v=0.3, planeStress=False)
+    pfm = Models.PhaseField(el, "Miehe", "AT2", 2.7e-3, 0.2, case["solver"])
+
+    def load(simu, mesh, uy):
+        X = np.asarray(mesh.coord, float)
+        s = X[:, 1]
+        simu.Bc_Init()
+        simu.add_dirichlet(np.where(s <= s.min() + 1e-9)[0], [0.0, 0.0], ["x", "y"])
+        simu.add_dirichlet(np.where(s >= s.max() - 1e-9)[0], [float(uy)], ["y"])
+
+    mesh = gm.build(case["recipe"])
+    simu = Simulations.PhaseField(mesh, pfm)
+    for _ in range(3):
+        load(simu, mesh, 2e-2)
+        simu.Solve()
+        simu.Save_Iter()
+    d_before = float(np.max(simu.damage))
+    if case["how"] == "same_rebuilt":
+        m2 = gm.rebuild(mesh, np.asarray(mesh.coord, float))
+    elif case["how"] == "copy_moved":
+        m2 = mesh.copy()
+        m2.Translate(0.5, 0.25, 0.0)
+    else:
+        m2 = gm.build(dict(case["recipe"], h=0.26))
+    simu.mesh = m2
+    load(simu, m2, 1e-5)
+    simu.Solve()
+    fresh = Simulations.PhaseField(gm.rebuild(m2, np.asarray(m2.coord, float)), pfm)
+    load(fresh, fresh.mesh, 1e-5)
+    fresh.Solve()
+    d1, d2 = np.asarray(simu.damage, float), np.asarray(fresh.damage, float)
+    rec.require(d1.shape == d2.shape, "pf_replace_shape", f"damage {d1.shape} vs {d2.shape}", **sig)
+    rec.close(d1 - d2, 1.0, 1e-9, "pf_replace_damage", f"{case['solver']}: after a damaged history (max d = {d_before:.3f}) the mesh is replaced "
+              f"({case['how']}) and a light load applied: max damage {d1.max():.3e}, a new simulation on that mesh gives {d2.max():.3e}", **sig)
+    u1, u2 = np.asarray(simu.displacement, float), np.asarray(fresh.displacement, float)
+    rec.close(u1 - u2, float(np.abs(u2).max()) + 1e-300, 1e-8, "pf_replace_displacement", "displacement after the replacement vs a new simulation", **sig)
+    rec.nontrivial(d_before > 0.1)
+
+
+SUBS.append(Sub("phasefield_replace", check_pf_replace, enum=enum_pf_replace,
+                doc="element type x damage solver x replacement (same mesh rebuilt / moved copy / other size) after a damaged, saved history"))
